@@ -532,6 +532,74 @@ def transforms(ck, sh, mm, axes):
     ck.bounds.setdefault('transforms', []).append(axes)
 
 
+def curve_transform(ck, sh, mm, kind, n, axis):
+    """Arc / Helix with n segments: rotate, translate and scale act on EVERY segment end as on a point
+    (rotation matrix of the code, symbolic angle about one axis; symbolic translation and scale factor)."""
+    M = sh.mininec
+
+    def build(Mx):
+        if kind == 'arc':
+            return Mx.Arc(n, 1.0, 10.0, 130.0, 0.002)
+        return Mx.Helix(n, 0.1, 0.5, 0.001, 0.2, 0.25)
+
+    def fn():
+        c = symx.ctx()
+        ang = [0.0, 0.0, 0.0]
+        a = SR.var('rot')
+        c.assume(z3.And(a.n >= -360, a.n <= 360, a.n != 0))
+        ang['xyz'.index(axis)] = a
+        tr = [SR.var('t' + x) for x in 'xyz']
+        s = pos('s', 0.01, 100)
+        with symx.object_arrays():
+            w = build(M)
+            before = np.array(w.segends, dtype=float)
+            r0 = w.r
+            rm = M.Rotation_Matrix(np.array(ang, dtype=object))
+            w.rotate(rm)
+            rot = np.array(w.segends)
+            w.translate(np.array(tr, dtype=object))
+            trn = np.array(w.segends)
+            w.scale(s)
+            scl = np.array(w.segends)
+        return dict(inputs=dict(rot=a, tr=tr, s=s), m=rm.m, before=before, rot=rot, trn=trn, scl=scl, tr=tr, s=s, r=w.r, r0=r0)
+
+    def goals(o):
+        m, B = o['m'], o['before']
+        want = [[sum((m[i][k] * float(B[p][k]) for k in range(3)), 0.0) for i in range(3)] for p in range(len(B))]
+        g = [('exactly n+1 segment ends stay', z3.BoolVal(o['rot'].shape == B.shape and o['scl'].shape == B.shape))]
+        if o['rot'].shape != B.shape:
+            return g
+        g.append(('rotate applies the matrix to every segment end', z3.And(
+            *[eq_term(o['rot'][p][i], want[p][i]) for p in range(len(B)) for i in range(3)])))
+        g.append(('translate adds the vector to every segment end', z3.And(
+            *[eq_term(o['trn'][p][i], want[p][i] + o['tr'][i]) for p in range(len(B)) for i in range(3)])))
+        g.append(('scale multiplies every segment end and the radius', z3.And(
+            eq_term(o['r'], SR.lift(o['r0']) * o['s']),
+            *[eq_term(o['scl'][p][i], (want[p][i] + o['tr'][i]) * o['s']) for p in range(len(B)) for i in range(3)])))
+        return g
+
+    def replay(c, gn, out):
+        ang = [0.0, 0.0, 0.0]
+        ang['xyz'.index(axis)] = float(c['rot'])
+        w = build(mm)
+        before = np.array(w.segends, dtype=float)
+        rm = mm.Rotation_Matrix(np.array(ang))
+        w.rotate(rm)
+        after = np.array(w.segends, dtype=float)
+        l0 = np.linalg.norm(np.diff(before, axis=0), axis=1)
+        l1 = np.linalg.norm(np.diff(after, axis=0), axis=1) if after.shape == before.shape else None
+        if l1 is None or not np.allclose(l0, l1, rtol=1e-9) or not np.allclose(after, (rm.m @ before.T).T, atol=1e-9):
+            return ('C13:curve-rotate:%s' % kind, '%s with %d segments rotated by %r about %s: segment lengths %s -> %s'
+                    % (kind, n, float(c['rot']), axis, l0, l1), dict(kind='curve-rotate', n=n))
+        w.translate(np.array([float(v) for v in c['tr']]))
+        w.scale(float(c['s']))
+        want = ((rm.m @ before.T).T + np.array([float(v) for v in c['tr']])) * float(c['s'])
+        if not np.allclose(np.array(w.segends, dtype=float), want, atol=1e-9 * (1 + np.abs(want).max())):
+            return ('C13:curve-transform:%s' % kind, '%s with %d segments: translate/scale do not act on every segment end' % (kind, n), dict(kind='curve-transform', n=n))
+        return None
+    prove_paths(ck, 'curve-%s-n%d-%s' % (kind, n, axis), fn, goals, replay, max_paths=16, expect_exc=(ValueError,), timeout_ms=20000)
+
+
 def main(args):
     ck = Check('C13', args)
     ck.shadow_stats = symx.load().stats
@@ -545,6 +613,7 @@ def main(args):
             parts.append(('taper', ('taper2', n, False, False)))
         parts.append(('taper', ('taper2', 4, True, True)))
         parts += [('taper_wire', (t, False)) for t in (1, 2, 3)] + [('taper_wire', (1, True))]
+        parts += [('curve_transform', ('helix', n, 'x')) for n in (1, 2, 3)] + [('curve_transform', ('arc', 3, 'z')), ('curve_transform', ('helix', 2, 'y'))]
         parts += [('taper_mirror', (3,)), ('equal_segments', (1,)), ('equal_segments', (7,)), ('arc', (3,)), ('arc', (5,)),
                   ('helix', (3, 1, 1)), ('helix', (4, -1, 1)), ('helix', (3, 1, -1)), ('transforms', ('x',)), ('transforms', ('z',)),
                   ('transforms', ('xy',))]
@@ -559,6 +628,7 @@ def main(args):
             parts.append(('taper', ('taper2', n, False, False)))
         parts += [('taper_mirror', (n,)) for n in (2, 3, 4, 5)]
         parts += [('taper_wire', (t, c)) for t in (1, 2, 3) for c in (False, True)]
+        parts += [('curve_transform', ('helix', n, ax)) for n in (1, 2, 3, 4, 6) for ax in 'xyz'] + [('curve_transform', ('arc', n, ax)) for n in (3, 4, 8) for ax in 'xyz']
         parts += [('equal_segments', (n,)) for n in (1, 2, 3, 7, 20, 40)]
         parts += [('arc', (n,)) for n in (3, 4, 8, 16)]
         parts += [('helix', (n, a, b)) for n in (3, 5, 8) for a in (1, -1) for b in (1, -1)]
